@@ -10,7 +10,8 @@
                               /\ no enabled negative filter matches m
                               /\ (withEvents => no enabled event filter exists or some event filter matches m)
 
-   withEvents is TRUE for the set matcher used by remote streams, searches and the export plugin (match_filters) and
+   withEvents is TRUE for the set matcher used by remote streams (StreamContext::from + process_stream_new_msgs), searches
+   and the export plugin (match_filters; the plugin additionally drops messages outside its lifecycles to keep) and
    FALSE for the stream filter of `adlt convert` (filter_as_streams), which knows positive and negative filters only.
 
    Stream contract (filter_as_streams on an input sequence): the forwarded messages are exactly the kept ones, in
@@ -28,6 +29,10 @@ Keep(Fs, m, withEvents) ==
     /\ (Active(Fs, KPos) = {} \/ SomeMatch(Fs, KPos, m))
     /\ ~SomeMatch(Fs, KNeg, m)
     /\ (withEvents => (Active(Fs, KEvent) = {} \/ SomeMatch(Fs, KEvent, m)))
+
+\* the export plugin: the set matcher (event filters included) on its configured filters, and - if lifecycles to keep are
+\* configured - only messages of those lifecycles (keepLcs = the set of their ids; {} = none configured)
+ExportKeep(Fs, m, keepLcs) == Keep(Fs, m, TRUE) /\ (keepLcs = {} \/ m.lc \in keepLcs)
 
 \* positions (1-based) of the kept messages of the stream s (a sequence of indices into the message table msgs)
 KeptPos(Fs, msgs, s) == {p \in 1..Len(s) : Keep(Fs, msgs[s[p]], FALSE)}
